@@ -129,6 +129,18 @@ func genPublicX(r *rand.Rand, mode int) sx.V {
 		// S with a zero low byte: the shape in which a byte could move between S and T if widths were announced ones
 		s.Lsh(randBig(r, 8+r.Intn(2000)), 8)
 	}
+	if mode == 1 && r.Intn(4) == 0 {
+		// a value that does not fit 256 bytes: Parameters.WriteTo must refuse it (the model says None)
+		over := new(big.Int).Lsh(big.NewInt(1), uint(2048+r.Intn(9)))
+		switch r.Intn(3) {
+		case 0:
+			n.Add(n, over)
+		case 1:
+			s.Add(s, over)
+		default:
+			t.Add(t, over)
+		}
+	}
 	return sx.List(genPointX(r, true), genPointX(r, true), sx.Big(pn), sx.Big(n), sx.Big(s), sx.Big(t))
 }
 
@@ -164,7 +176,8 @@ func goPublicX(p sx.V) *cmpconfig.Public {
 		ElGamal:  goPointX(p.L[1]),
 		Paillier: paillier.NewPublicKey(saferith.ModulusFromNat(pnNat)),
 		Pedersen: pedersen.New(arith.ModulusFromN(saferith.ModulusFromNat(nNat)),
-			natOf(s, announcedBits(s, desc, "s", 2048)), natOf(t, announcedBits(t, desc, "t", 2048))),
+			// announced lengths beyond 2048 bits with a value that fits are fine: only the true size counts
+			natOf(s, announcedBits(s, desc, "s", 2048+64)), natOf(t, announcedBits(t, desc, "t", 2048+64))),
 	}
 }
 
@@ -592,10 +605,11 @@ func shortX(s string, n int) string {
 	return s[:n] + fmt.Sprintf("...(%d)", len(s))
 }
 
-// ---- the width witness of Properties/C19_values.v (C19_config_inj_without_widths_refuted), on the Go types ----
+// ---- regression pairs of Properties/C19_values.v, on the Go types ----
 
 // c19xWidthWitness returns the two Config descriptions of HvalProofs.wit_config_a / wit_config_b: same threshold, parties
-// and RID, different public records, Paillier moduli of 1 and 34 bytes resp. 34 and 1 bytes.
+// and RID, different public records, Paillier moduli of 1 and 34 bytes resp. 34 and 1 bytes.  Before the repair of
+// Config.WriteTo / Public.WriteTo (length-prefixed RID and modulus) both were written as the same bytes.
 func c19xWidthWitness() (a, b sx.V) {
 	pow := func(e uint) *big.Int { return new(big.Int).Lsh(big.NewInt(1), 8*e) }
 	add := func(x *big.Int, y int64) *big.Int { return new(big.Int).Add(x, big.NewInt(y)) }
@@ -617,26 +631,58 @@ func c19xWidthWitness() (a, b sx.V) {
 	return
 }
 
-// c19xWidthProbe replays the witness on the implementation: two different *config.Config values, WriteTo output and
-// transcript digest of each.  Returns whether the implementation writes them identically.  Recorded as a note, not as a
-// violation: configs with Paillier moduli of different sizes are refused by ValidateN before they reach a transcript.
+// c19xOnePartyWitness: HvalProofs.wit1_config_a / wit1_config_b -- one party, RIDs of 32 and 65 bytes, moduli of 34 and
+// 1 bytes; written identically before the repair.
+func c19xOnePartyWitness() (a, b sx.V) {
+	gx := c19xG.L[0].Z
+	encG := new(big.Int).Add(new(big.Int).Lsh(big.NewInt(2), 256), gx)
+	rid := bytes.Repeat([]byte{7}, 32)
+	pub := func(e, g sx.V, pn *big.Int) sx.V {
+		return sx.List(e, g, sx.Big(pn), sx.Int(14), sx.Int(15), sx.Int(16))
+	}
+	a = sx.List(sx.Int(24), sx.List(sx.List(sx.Int(0), sx.List(sx.Bytes(rid)), sx.List(
+		sx.List(sx.Str("a"), pub(c19xG, c19x2G, new(big.Int).Add(new(big.Int).Lsh(encG, 8), big.NewInt(9))))))))
+	b = sx.List(sx.Int(24), sx.List(sx.List(sx.Int(0), sx.List(sx.Bytes(append(append([]byte{}, rid...), compressedX(c19xG)...))), sx.List(
+		sx.List(sx.Str("a"), pub(c19x2G, c19xG, big.NewInt(9)))))))
+	return
+}
+
+// c19xTruncationWitness: Pedersen moduli 5 and 5 + 2^2048 (same S, T): FillBytes into 256 bytes wrote them identically;
+// the repaired Parameters.WriteTo refuses the second.
+func c19xTruncationWitness() (a, b sx.V) {
+	a = sx.List(sx.Int(18), sx.Int(5), sx.Int(1), sx.Int(1))
+	b = sx.List(sx.Int(18), sx.Big(new(big.Int).Add(big.NewInt(5), new(big.Int).Lsh(big.NewInt(1), 2048))), sx.Int(1), sx.Int(1))
+	return
+}
+
+// c19xWidthProbe: the collision witnesses found against the pre-fix encoders, as a property check on the implementation:
+// each pair consists of two DIFFERENT typed values, so the transcript digests must differ (or a value must be refused).
+// Also compared with the model value by value (c19DirectWriteTo).
 func (c *ctx) c19xWidthProbe() bool {
-	a, b := c19xWidthWitness()
-	_, da, oka, _ := goItemX(goValue(a))
-	_, db, okb, _ := goItemX(goValue(b))
-	ga, _ := goDigest([]sx.V{a})
-	gb, _ := goDigest([]sx.V{b})
-	same := oka && okb && bytes.Equal(da, db) && bytes.Equal(ga, gb)
-	c.c19DirectWriteTo([]sx.V{a, b})
-	c.res.Note("C19 width witness (two different cmp configs, Paillier moduli of 1/34 and 34/1 bytes): WriteTo equal=%v digest equal=%v (%x)",
-		bytes.Equal(da, db), bytes.Equal(ga, gb), ga[:8])
-	// the same effect one level down: a fixed-width field written with FillBytes drops what does not fit
-	// (C19_fixed_width_truncation_refuted): Pedersen moduli 5 and 5 + 2^2048
-	p1 := sx.List(sx.Int(18), sx.Int(5), sx.Int(1), sx.Int(1))
-	p2 := sx.List(sx.Int(18), sx.Big(new(big.Int).Add(big.NewInt(5), new(big.Int).Lsh(big.NewInt(1), 2048))), sx.Int(1), sx.Int(1))
-	g1, _ := goDigest([]sx.V{p1})
-	g2, _ := goDigest([]sx.V{p2})
-	c.c19DirectWriteTo([]sx.V{p1, p2})
-	c.res.Note("C19 truncation witness (Pedersen N = 5 and 5 + 2^2048, same S, T): digest equal=%v", bytes.Equal(g1, g2))
-	return same
+	type pair struct {
+		shape string
+		a, b  sx.V
+	}
+	wa, wb := c19xWidthWitness()
+	oa, ob := c19xOnePartyWitness()
+	ta, tb := c19xTruncationWitness()
+	good := true
+	for _, p := range []pair{
+		{"config-paillier-width-shift", wa, wb},
+		{"config-rid-length-shift", oa, ob},
+		{"pedersen-truncation", ta, tb},
+	} {
+		c.c19DirectWriteTo([]sx.V{p.a, p.b})
+		ga, oka := goDigest([]sx.V{p.a})
+		gb, okb := goDigest([]sx.V{p.b})
+		c.res.Case("regression-"+p.shape, p.a.String()+"|"+p.b.String(), true)
+		if oka && okb && bytes.Equal(ga, gb) {
+			good = false
+			c.res.Violate("property", "C19/digest-collision/"+p.shape,
+				"two different typed values give the same transcript digest",
+				c19Replay{Shape: p.shape, SeqA: seqString([]sx.V{p.a}), SeqB: seqString([]sx.V{p.b}),
+					GoA: hex.EncodeToString(ga), GoB: hex.EncodeToString(gb), What: "digest collision by framing inside one item"})
+		}
+	}
+	return good
 }
